@@ -23,10 +23,12 @@ if section:
 for sp in specs:
     if sp == "--examples" or (extra is not None and sp == sys.argv[sys.argv.index("--examples") + 1]):
         continue
+    if sp.startswith("@"):                      # raw vernacular (imports / scope switches) between groups
+        out.append(sp[1:] + "\n"); continue
     f, ns = sp.split(":")
     txt = strip_coq_comments(open(os.path.join(COQ, f + ".v")).read())
     for n in ns.split(","):
-        m = re.search(r"(?s)\b(?:Theorem|Lemma)\s+" + re.escape(n) + r"\b(.*?)\.\s*\n\s*Proof\b", txt)
+        m = re.search(r"(?s)\b(?:Theorem|Lemma|Corollary)\s+" + re.escape(n) + r"\b(.*?)\.\s*\n\s*Proof\b", txt)
         if not m:
             raise SystemExit(f"statement of {n} not found in {f}.v")
         stmt = m.group(1).strip()
